@@ -517,10 +517,14 @@ impl Fstat for VirtualSystem {
     type Stat = Stat;
 
     fn fstat(&self, fd: Fd) -> Result<Stat> {
+        #[cfg(feature = "verif-hooks")]
+        self.verif_tap("fstat");
         self.with_open_file_description(fd, |ofd| Ok(ofd.inode().borrow().stat()))
     }
 
     fn fstatat(&self, dir_fd: Fd, path: &CStr, follow_symlinks: bool) -> Result<Stat> {
+        #[cfg(feature = "verif-hooks")]
+        self.verif_tap("fstatat");
         let path = Path::new(UnixStr::from_bytes(path.to_bytes()));
         let inode = self.resolve_existing_file(dir_fd, path, follow_symlinks)?;
         Ok(inode.borrow().stat())
@@ -541,6 +545,8 @@ impl IsExecutableFile for VirtualSystem {
 
 impl Pipe for VirtualSystem {
     fn pipe(&self) -> Result<(Fd, Fd)> {
+        #[cfg(feature = "verif-hooks")]
+        self.verif_tap("pipe");
         let file = Rc::new(RefCell::new(Inode {
             body: FileBody::Fifo {
                 content: VecDeque::new(),
@@ -590,6 +596,8 @@ impl Pipe for VirtualSystem {
 
 impl Dup for VirtualSystem {
     fn dup(&self, from: Fd, to_min: Fd, flags: EnumSet<FdFlag>) -> Result<Fd> {
+        #[cfg(feature = "verif-hooks")]
+        self.verif_tap("dup");
         let mut process = self.current_process_mut();
         let mut body = process.fds.get(&from).ok_or(Errno::EBADF)?.clone();
         body.flags = flags;
@@ -597,6 +605,8 @@ impl Dup for VirtualSystem {
     }
 
     fn dup2(&self, from: Fd, to: Fd) -> Result<Fd> {
+        #[cfg(feature = "verif-hooks")]
+        self.verif_tap("dup2");
         let mut process = self.current_process_mut();
         let mut body = process.fds.get(&from).ok_or(Errno::EBADF)?.clone();
         body.flags = EnumSet::empty();
@@ -619,6 +629,8 @@ impl Open for VirtualSystem {
         flags: EnumSet<OpenFlag>,
         mode: Mode,
     ) -> impl Future<Output = Result<Fd>> + use<> {
+        #[cfg(feature = "verif-hooks")]
+        self.verif_tap("open");
         let resolution = self.resolve_file(path, access, flags, mode);
         let system = self.clone();
 
@@ -657,6 +669,8 @@ impl Open for VirtualSystem {
     }
 
     fn open_tmpfile(&self, _parent_dir: &Path) -> Result<Fd> {
+        #[cfg(feature = "verif-hooks")]
+        self.verif_tap("open_tmpfile");
         let file = Rc::new(RefCell::new(Inode::new([])));
         let open_file_description = Rc::new(RefCell::new(OpenFileDescription::new(
             file, /* offset = */ 0, /* is_readable = */ true,
@@ -681,6 +695,8 @@ impl Open for VirtualSystem {
     }
 
     fn opendir(&self, path: &CStr) -> Result<impl Dir + use<>> {
+        #[cfg(feature = "verif-hooks")]
+        self.verif_tap("opendir");
         let (file, is_readable, is_writable) = self.resolve_file(
             path,
             OfdAccess::ReadOnly,
@@ -708,6 +724,8 @@ impl Open for VirtualSystem {
 
 impl Close for VirtualSystem {
     fn close(&self, fd: Fd) -> Result<()> {
+        #[cfg(feature = "verif-hooks")]
+        self.verif_tap("close");
         self.current_process_mut().close_fd(fd);
         Ok(())
     }
@@ -734,6 +752,8 @@ impl Fcntl for VirtualSystem {
     }
 
     fn get_and_set_nonblocking(&self, fd: Fd, nonblocking: bool) -> Result<bool> {
+        #[cfg(feature = "verif-hooks")]
+        self.verif_tap("fcntl_setfl");
         self.with_open_file_description_mut(fd, |ofd| {
             let was_nonblocking = ofd.is_nonblocking();
             ofd.set_nonblocking(nonblocking);
@@ -742,12 +762,16 @@ impl Fcntl for VirtualSystem {
     }
 
     fn fcntl_getfd(&self, fd: Fd) -> Result<EnumSet<FdFlag>> {
+        #[cfg(feature = "verif-hooks")]
+        self.verif_tap("fcntl_getfd");
         let process = self.current_process();
         let body = process.get_fd(fd).ok_or(Errno::EBADF)?;
         Ok(body.flags)
     }
 
     fn fcntl_setfd(&self, fd: Fd, flags: EnumSet<FdFlag>) -> Result<()> {
+        #[cfg(feature = "verif-hooks")]
+        self.verif_tap("fcntl_setfd");
         let mut process = self.current_process_mut();
         let body = process.get_fd_mut(fd).ok_or(Errno::EBADF)?;
         body.flags = flags;
@@ -787,6 +811,8 @@ impl Read for VirtualSystem {
         fd: Fd,
         buffer: &'a mut [u8],
     ) -> impl Future<Output = Result<usize>> + use<'a> {
+        #[cfg(feature = "verif-hooks")]
+        self.verif_tap("read");
         let ofd = self.get_open_file_description(fd);
         let system = self.clone();
         async move {
@@ -833,6 +859,8 @@ impl Write for VirtualSystem {
     /// when `Err(Errno::EINTR)` is returned no bytes have been transferred in
     /// this call.
     fn write<'a>(&self, fd: Fd, buffer: &'a [u8]) -> impl Future<Output = Result<usize>> + use<'a> {
+        #[cfg(feature = "verif-hooks")]
+        self.verif_tap("write");
         let ofd = self.get_open_file_description(fd);
         let system = self.clone();
         async move {
@@ -874,6 +902,8 @@ impl Write for VirtualSystem {
 
 impl Seek for VirtualSystem {
     fn lseek(&self, fd: Fd, position: SeekFrom) -> Result<u64> {
+        #[cfg(feature = "verif-hooks")]
+        self.verif_tap("lseek");
         self.with_open_file_description_mut(fd, |ofd| ofd.seek(position))
             .and_then(|new_offset| new_offset.try_into().map_err(|_| Errno::EOVERFLOW))
     }
@@ -881,6 +911,8 @@ impl Seek for VirtualSystem {
 
 impl Umask for VirtualSystem {
     fn umask(&self, new_mask: Mode) -> Mode {
+        #[cfg(feature = "verif-hooks")]
+        self.verif_tap("umask");
         std::mem::replace(&mut self.current_process_mut().umask, new_mask)
     }
 }
@@ -893,6 +925,8 @@ impl GetCwd for VirtualSystem {
 
 impl Chdir for VirtualSystem {
     fn chdir(&self, path: &CStr) -> Result<()> {
+        #[cfg(feature = "verif-hooks")]
+        self.verif_tap("chdir");
         let path = Path::new(UnixStr::from_bytes(path.to_bytes()));
         let inode = self.resolve_existing_file(AT_FDCWD, path, /* follow links */ true)?;
         if matches!(&inode.borrow().body, FileBody::Directory { .. }) {
@@ -998,6 +1032,8 @@ impl SetPgid for VirtualSystem {
     ///
     /// The current implementation does not yet support the concept of sessions.
     fn setpgid(&self, mut pid: Pid, mut pgid: Pid) -> Result<()> {
+        #[cfg(feature = "verif-hooks")]
+        self.verif_tap("setpgid");
         if pgid.0 < 0 {
             return Err(Errno::EINVAL);
         }
@@ -1034,6 +1070,8 @@ impl Sigmask for VirtualSystem {
         op: Option<(SigmaskOp, &Sigset)>,
         old_mask: Option<&mut Sigset>,
     ) -> impl Future<Output = Result<()>> + use<> {
+        #[cfg(feature = "verif-hooks")]
+        self.verif_tap("sigmask");
         let state_changed = {
             let mut state = self.state.borrow_mut();
             let process = state
@@ -1076,6 +1114,8 @@ impl GetSigaction for VirtualSystem {
 
 impl Sigaction for VirtualSystem {
     fn sigaction(&self, signal: signal::Number, disposition: Disposition) -> Result<Disposition> {
+        #[cfg(feature = "verif-hooks")]
+        self.verif_tap("sigaction");
         let mut process = self.current_process_mut();
         Ok(process.set_disposition(signal, disposition))
     }
@@ -1083,6 +1123,8 @@ impl Sigaction for VirtualSystem {
 
 impl CaughtSignals for VirtualSystem {
     fn caught_signals(&self) -> Vec<signal::Number> {
+        #[cfg(feature = "verif-hooks")]
+        self.verif_tap("caught_signals");
         std::mem::take(&mut self.current_process_mut().caught_signals)
     }
 }
@@ -1105,6 +1147,8 @@ impl SendSignal for VirtualSystem {
         target: Pid,
         signal: Option<signal::Number>,
     ) -> impl Future<Output = Result<()>> + use<> {
+        #[cfg(feature = "verif-hooks")]
+        self.verif_tap("kill");
         let result = 'result: {
             if let Some(signal) = signal {
                 // Validate the signal number
@@ -1197,6 +1241,8 @@ impl TcSetPgrp for VirtualSystem {
     /// The current implementation does not yet support the concept of
     /// controlling terminals and sessions. It accepts any open file descriptor.
     fn tcsetpgrp(&self, fd: Fd, pgid: Pid) -> impl Future<Output = Result<()>> + use<> {
+        #[cfg(feature = "verif-hooks")]
+        self.verif_tap("tcsetpgrp");
         fn inner(system: &VirtualSystem, fd: Fd, pgid: Pid) -> Result<()> {
             // Make sure the FD is open
             system.with_open_file_description(fd, |_| Ok(()))?;
@@ -1241,6 +1287,8 @@ impl Fork for VirtualSystem {
         D: Clone + 'static,
         F: AsyncFnOnce(Self, D) + 'static,
     {
+        #[cfg(feature = "verif-hooks")]
+        self.verif_tap("fork");
         let mut state = self.state.borrow_mut();
         let Some(executor) = state.executor.as_ref() else {
             return (Err(Errno::ENOSYS), shared_data);
@@ -1281,6 +1329,8 @@ impl Wait for VirtualSystem {
     ///
     /// TODO: Currently, this function only supports `target == -1 || target > 0`.
     fn wait(&self, target: Pid) -> Result<Option<(Pid, ProcessState)>> {
+        #[cfg(feature = "verif-hooks")]
+        self.verif_tap("wait");
         let parent_pid = self.process_id;
         let mut state = self.state.borrow_mut();
         if let Some((pid, process)) = state.child_to_wait_for(parent_pid, target) {
@@ -1313,6 +1363,8 @@ impl Exec for VirtualSystem {
         A: IntoCStrArray,
         E: IntoCStrArray,
     {
+        #[cfg(feature = "verif-hooks")]
+        self.verif_tap("execve");
         fn inner<A, E>(
             this: &VirtualSystem,
             path: &CStr,
@@ -1361,6 +1413,8 @@ impl Exec for VirtualSystem {
 
 impl Exit for VirtualSystem {
     fn exit(&self, exit_status: ExitStatus) -> impl Future<Output = Infallible> + use<> {
+        #[cfg(feature = "verif-hooks")]
+        self.verif_tap("exit");
         let mut myself = self.current_process_mut();
         let parent_pid = myself.ppid;
         let exited = myself.set_state(ProcessState::exited(exit_status));
@@ -1442,6 +1496,8 @@ impl GetRlimit for VirtualSystem {
 
 impl SetRlimit for VirtualSystem {
     fn setrlimit(&self, resource: Resource, limits: LimitPair) -> Result<()> {
+        #[cfg(feature = "verif-hooks")]
+        self.verif_tap("setrlimit");
         if limits.soft_exceeds_hard() {
             return Err(Errno::EINVAL);
         }
@@ -1501,6 +1557,37 @@ fn raise_sigchld(state: &mut SystemState, target_pid: Pid) {
     }
 }
 
+/// Verification hook: observer of simulated system calls
+///
+/// When [`SystemState::verif_tap`] is set, the callback is invoked with the
+/// calling process ID and the name of the system call at the entry of every
+/// system call simulated by [`VirtualSystem`], before the call takes effect
+/// and while no borrow of the system state is held. External verification
+/// tooling uses it to interleave other virtual processes or deliver signals
+/// at system call boundaries. It is compiled only with the `verif-hooks`
+/// feature, which nothing in the workspace enables.
+#[cfg(feature = "verif-hooks")]
+#[derive(Clone)]
+pub struct VerifTap(pub Rc<dyn Fn(Pid, &'static str)>);
+
+#[cfg(feature = "verif-hooks")]
+impl Debug for VerifTap {
+    fn fmt(&self, f: &mut std::fmt::Formatter<'_>) -> std::fmt::Result {
+        f.write_str("VerifTap")
+    }
+}
+
+#[cfg(feature = "verif-hooks")]
+impl VirtualSystem {
+    /// Invokes the verification tap, if any, for the named system call.
+    pub(crate) fn verif_tap(&self, name: &'static str) {
+        let tap = self.state.borrow().verif_tap.clone();
+        if let Some(tap) = tap {
+            (tap.0)(self.process_id, name);
+        }
+    }
+}
+
 /// State of the virtual system
 #[derive(Clone, Debug, Default)]
 pub struct SystemState {
@@ -1545,6 +1632,11 @@ pub struct SystemState {
 
     /// Standard path returned by [`VirtualSystem::confstr_path`]
     pub path: UnixString,
+
+    /// Verification hook: callback invoked at the entry of every simulated
+    /// system call (see [`VerifTap`])
+    #[cfg(feature = "verif-hooks")]
+    pub verif_tap: Option<VerifTap>,
 }
 
 impl SystemState {
